@@ -82,7 +82,7 @@ inductive Pc
   | selTerm | selMail | selRun
   | parked
   | inHandler (mid : Nat) (k : Kind)
-  | stopping (killed : Bool) (runErr : Bool)
+  | stopping (killed : Bool) (runErr : Bool) (marker : Bool)   -- marker: the dequeued stop marker (and its reference) is alive during on_stop
   | ended
   deriving DecidableEq, Repr, Inhabited
 
@@ -169,8 +169,11 @@ def grantFirst : List Waiter → List Waiter
 
 def setF {β : Type} (f : Nat → β) (k : Nat) (v : β) : Nat → β := fun x => if x = k then v else f x
 
+/-- references held by the loop body itself: the `actor_ref` moved into the handler, or the
+    dequeued `StopGracefully(ActorRef)` that the `_` pattern leaves alive while on_stop runs -/
 def inHandlerRef : Pc → Nat
   | .inHandler _ _ => 1
+  | .stopping _ _ true => 1
   | _ => 0
 
 def strongHandles (hs : List (Nat × Bool)) : Nat := (hs.filter (·.2)).length
@@ -332,10 +335,10 @@ def step? (s : Sys) : Label → Option Sys
   | .pollTerm =>
     if s.pc = .selTerm then
       if s.termSlot then
-        some { s with termSlot := false, pc := .stopping true false, runLive := false,
+        some { s with termSlot := false, pc := .stopping true false false, runLive := false,
                       ev := s.ev ++ [.termConsumed, .stopStart true] }
       else if s.strongCount = 0 then
-        some { s with pc := .stopping false false, runLive := false, ev := s.ev ++ [.stopStart false] }
+        some { s with pc := .stopping false false false, runLive := false, ev := s.ev ++ [.stopStart false] }
       else some { s with pc := .selMail }
     else none
   | .pollMail =>
@@ -344,7 +347,7 @@ def step? (s : Sys) : Label → Option Sys
       match s.mbox with
       | [] =>
         if s.strongCount = 0 then
-          some { s with pc := .stopping false false, runLive := false, ev := s.ev ++ [.stopStart false] }
+          some { s with pc := .stopping false false false, runLive := false, ev := s.ev ++ [.stopStart false] }
         else some { s with pc := .selRun }
       | .env mid k :: rest =>
         some { s with mbox := rest, taken := s.taken + 1, waiters := grantFirst s.waiters,
@@ -352,7 +355,7 @@ def step? (s : Sys) : Label → Option Sys
                       ev := s.ev ++ [.handlerStart mid] }
       | .stop _ :: rest =>
         some { s with mbox := rest, taken := s.taken + 1, waiters := grantFirst s.waiters,
-                      pc := .stopping false false, runLive := false, ev := s.ev ++ [.stopStart false] }
+                      pc := .stopping false false true, runLive := false, ev := s.ev ++ [.stopStart false] }
     else none
   | .pollRun =>
     if s.pc = .selRun then
@@ -368,7 +371,7 @@ def step? (s : Sys) : Label → Option Sys
           match runOutAt s.script k with
           | .cont => some { s with pc := .selTerm, ev := s.ev ++ [.runEnd k .cont] }
           | .disable => some { s with pc := .selTerm, idleEnabled := false, ev := s.ev ++ [.runEnd k .disable] }
-          | .err => some { s with pc := .stopping false true, ev := s.ev ++ [.runEnd k .err, .stopStart false] }
+          | .err => some { s with pc := .stopping false true false, ev := s.ev ++ [.runEnd k .err, .stopStart false] }
           | .panic => some (s.finish none [.runEnd k .panic])
     else none
   | .wake => if s.pc = .parked then some { s with pc := .selTerm } else none
@@ -392,7 +395,7 @@ def step? (s : Sys) : Label → Option Sys
     | _ => none
   | .stopDone =>
     match s.pc with
-    | .stopping killed runErr =>
+    | .stopping killed runErr _ =>
       if 0 < s.gatePermits then
         let s : Sys := { s with gatePermits := s.gatePermits - 1, hooks := s.hooks ++ [.stop killed] }
         match s.script.stopOut, runErr with
